@@ -25,7 +25,9 @@ RULE = ('schema graphs generated from a description: 1-4 classes in a chosen reg
         'class with every cascade setting (True/False/\'null\'/None), targets including the class itself and two columns '
         'to the same target, 0-2 intermediate tables declared by one or both sides (including a self join); populations '
         'of 0-4 rows per class with NULL, valid and dangling FK values and random link rows; EVERY existing row as the '
-        'victim; both cache=True and cache=False connections; the harness holding all / only the victim / no instances. '
+        'victim; both cache=True and cache=False connections; the harness holding all / only the victim / no instances; '
+        'a third of the cases with the classes bound to a DIFFERENT default database (same ids, cascade=False columns flipped) '
+        'and every operation through an explicit connection= (the default database must stay untouched). '
         'Exhaustive sub-families: two FK columns to one target x all 16 policy pairs x all value pairs x both registry '
         'orders; one class with two self references; chains of depth 3 with all 64 policy triples in several registry '
         'orders. A malformed stream destroys ids that do not exist. Non-trivial = something other than the victim row '
@@ -135,8 +137,42 @@ def cascade_cycle_reachable(c):
 
 
 # ---------------------------------------------------------------- generation
-def mk(classes, rows, links, victim, cache, hold):
-    return {'classes': classes, 'rows': rows, 'links': links, 'victim': list(victim), 'cache': cache, 'hold': hold}
+def decoy_of(classes, rows, victim):
+    """Population of the classes' DEFAULT database in the explicit-connection mode: the same ids, but every
+    cascade=False column is flipped (a value becomes NULL, NULL becomes a reference to the victim / to the first
+    row of the target class), so that a restriction looked up in the wrong database gives the opposite answer."""
+    out = []
+    for k, cd in enumerate(classes):
+        rs = []
+        for r in rows[k]:
+            vals = []
+            for (t, p), v in zip(cd['fks'], r[1]):
+                if p != 'R':
+                    vals.append(v)
+                elif v is not None:
+                    vals.append(None)
+                elif t == victim[0]:
+                    vals.append(victim[1])
+                else:
+                    vals.append(rows[t][0][0] if rows[t] else None)
+            rs.append([r[0], vals])
+        out.append(rs)
+    return out
+
+
+def mk(classes, rows, links, victim, cache, hold, conn='default', decoy=None):
+    """conn='other': the classes are bound to a default connection holding the `decoy` population; the
+    population proper lives in a second database and every operation passes connection= explicitly."""
+    c = {'classes': classes, 'rows': rows, 'links': links, 'victim': list(victim), 'cache': cache, 'hold': hold,
+         'conn': conn}
+    if conn == 'other':
+        c['decoy'] = decoy if decoy is not None else decoy_of(classes, rows, victim)
+    return c
+
+
+def conn_mode(n):
+    # a third of the cases go through an explicit, non-default connection
+    return 'other' if (n // 2) % 3 == 2 else 'default'
 
 
 HOLDS = ['all', 'victim', 'none']
@@ -148,7 +184,7 @@ def all_victims(classes, rows, links, k0=0):
     for i, rs in enumerate(rows):
         for r in rs:
             for cache in (True, False):
-                out.append(mk(classes, rows, links, (i, r[0]), cache, HOLDS[n % 3]))
+                out.append(mk(classes, rows, links, (i, r[0]), cache, HOLDS[n % 3], conn_mode(n)))
                 n += 1
     return out
 
@@ -248,7 +284,7 @@ def fam_two_columns(thorough):
                     classes = [{'fks': [[1, p1], [1, p2]], 'joins': []}, {'fks': [], 'joins': []}]
                     rows = [[[1, [v1, v2]], [2, [2, None]]], [[1, []], [2, []]]]
                     vic = (1, 1)
-                out.append(mk(classes, rows, [], vic, n % 2 == 0, HOLDS[n % 3]))
+                out.append(mk(classes, rows, [], vic, n % 2 == 0, HOLDS[n % 3], conn_mode(n)))
                 n += 1
     return out
 
@@ -264,7 +300,7 @@ def fam_self(thorough):
                 continue
             classes = [{'fks': [[0, p1], [0, p2]], 'joins': []}]
             rows = [[[1, [a1, a2]], [2, [b1, b2]]]]
-            out.append(mk(classes, rows, [], (0, 1 + n % 2), n % 2 == 0, HOLDS[n % 3]))
+            out.append(mk(classes, rows, [], (0, 1 + n % 2), n % 2 == 0, HOLDS[n % 3], conn_mode(n)))
             n += 1
     return out
 
@@ -287,7 +323,7 @@ def fam_chain(thorough):
                     rows[pi[L]] = [[1, []], [2, []]]
                 else:
                     rows[pi[L]] = [[1, [1]], [2, [1]], [3, [2]]]
-            out.append(mk(classes, rows, [], (pi[0], 1), n % 2 == 0, HOLDS[n % 3]))
+            out.append(mk(classes, rows, [], (pi[0], 1), n % 2 == 0, HOLDS[n % 3], conn_mode(n)))
             n += 1
     return out
 
@@ -320,6 +356,17 @@ def witnesses():
            [[[1, []], [2, []]], [[1, [1, 2]], [2, [2, 1]], [3, [None, None]]],
             [[1, [1, 1, 2]], [2, [3, 1, 1]], [3, [2, 2, 1]]]],
            [[[1, 1], [2, 1], [1, 3], [2, 2]]], (0, 1), True, 'all'),
+        # seeded c12_restrict_checked_on_default_connection: the restriction must be looked up on the
+        # object's own connection.  1. direct (default db: the guard points at another owner)
+        mk([E, {'fks': [[0, 'R']], 'joins': []}], [[[1, []], [2, []]], [[1, [2]]]], [], (0, 2), True, 'victim',
+           'other', [[[1, []], [2, []]], [[1, [1]]]]),
+        # 2. depth two: Box <-True- Item <-False- Guard2 (default db: no guard reference)
+        mk([E, {'fks': [[0, 'C']], 'joins': []}, {'fks': [[1, 'R']], 'joins': []}],
+           [[[1, []]], [[1, [1]]], [[1, [1]]]], [], (0, 1), False, 'none', 'other',
+           [[[1, []]], [[1, [1]]], [[1, [None]]]]),
+        # 3. an unreferenced owner must be destroyable although the default db has a guard on the same id
+        mk([E, {'fks': [[0, 'R']], 'joins': []}], [[[1, []], [2, []]], [[1, [2]]]], [], (0, 1), True, 'all',
+           'other', [[[1, []], [2, []]], [[1, [1]]]]),
         # a row handed to destroySelf twice (materialised result list)
         mk([E, {'fks': [[0, 'C'], [1, 'C']], 'joins': []}],
            [[[1, []]], [[1, [1, None]], [2, [1, 1]]]], [], (0, 1), True, 'all'),
@@ -351,7 +398,7 @@ def generate(rng, tier):
         i = rng.randrange(len(classes))
         present = {r[0] for r in rows[i]}
         missing = rng.choice([x for x in [1, 2, 3, 4, 5, 6, 7, 8, 9] if x not in present])
-        out.append(mk(classes, rows, links, (i, missing), g % 2 == 0, 'none'))
+        out.append(mk(classes, rows, links, (i, missing), g % 2 == 0, 'none', conn_mode(g)))
     return out
 
 
@@ -377,10 +424,15 @@ def run_one(c, mods):
     n = next(_COUNTER)
     reg = 'verif_c12_%d' % n
     conn = SQLiteConnection(':memory:', cache=bool(c['cache']))
+    other = c.get('conn') == 'other'
+    # explicit-connection mode: the classes are bound to `dflt` (another database, holding the decoy
+    # population); everything below goes through `conn` with connection= passed explicitly
+    dflt = SQLiteConnection(':memory:') if other else conn
+    kw = {'connection': conn} if other else {}
     try:
         classes = []
         for i, cd in enumerate(c['classes']):
-            attrs = {'_connection': conn, 'sqlmeta': type('sqlmeta', (), {'registry': reg})}
+            attrs = {'_connection': dflt, 'sqlmeta': type('sqlmeta', (), {'registry': reg})}
             for j, (t, p) in enumerate(cd['fks']):
                 attrs['f%d' % j] = ForeignKey('K%d' % t, cascade=POL[p], default=None)
             for j, (o, tb, side) in enumerate(cd['joins']):
@@ -388,35 +440,43 @@ def run_one(c, mods):
                 attrs['j%d' % j] = RelatedJoin('K%d' % o, joinColumn=jc, otherColumn=oc,
                                                intermediateTable='lt%d' % tb, createRelatedTable=False)
             classes.append(type('K%d' % i, (SQLObject,), attrs))
-        for k in classes:
-            k.createTable()
-        raw = conn.getConnection()
-        cur = raw.cursor()
         colnames = [[col.dbName for col in k.sqlmeta.columnList] for k in classes]
         for i, k in enumerate(classes):
             # the column order the model relies on
             assert [col.name for col in k.sqlmeta.columnList] == ['f%dID' % j for j in range(len(c['classes'][i]['fks']))]
-        for t in range(len(c['links'])):
-            cur.execute('CREATE TABLE lt%d (l INT, r INT)' % t)
-            for a, b in c['links'][t]:
-                cur.execute('INSERT INTO lt%d (l, r) VALUES (?, ?)' % t, (a, b))
-        for i, rows in enumerate(c['rows']):
-            k = classes[i]
-            for rid, vals in rows:
-                cur.execute('INSERT INTO %s (%s) VALUES (%s)' % (
-                    k.sqlmeta.table, ', '.join(['id'] + colnames[i]), ', '.join('?' * (1 + len(colnames[i])))),
-                    [rid] + list(vals))
 
-        def dump():
+        def populate(dbc, rows_, links_):
+            for k in classes:
+                k.createTable(connection=dbc)
+            cu = dbc.getConnection().cursor()
+            for t in range(len(links_)):
+                cu.execute('CREATE TABLE lt%d (l INT, r INT)' % t)
+                for a, b in links_[t]:
+                    cu.execute('INSERT INTO lt%d (l, r) VALUES (?, ?)' % t, (a, b))
+            for i, rows in enumerate(rows_):
+                k = classes[i]
+                for rid, vals in rows:
+                    cu.execute('INSERT INTO %s (%s) VALUES (%s)' % (
+                        k.sqlmeta.table, ', '.join(['id'] + colnames[i]), ', '.join('?' * (1 + len(colnames[i])))),
+                        [rid] + list(vals))
+            return cu
+
+        def dump_of(cu):
             tabs = []
             for i, k in enumerate(classes):
-                cur.execute('SELECT %s FROM %s ORDER BY rowid' % (', '.join(['id'] + colnames[i]), k.sqlmeta.table))
-                tabs.append([[r[0], list(r[1:])] for r in cur.fetchall()])
+                cu.execute('SELECT %s FROM %s ORDER BY rowid' % (', '.join(['id'] + colnames[i]), k.sqlmeta.table))
+                tabs.append([[r[0], list(r[1:])] for r in cu.fetchall()])
             links = []
             for t in range(len(c['links'])):
-                cur.execute('SELECT l, r FROM lt%d ORDER BY rowid' % t)
-                links.append([list(r) for r in cur.fetchall()])
+                cu.execute('SELECT l, r FROM lt%d ORDER BY rowid' % t)
+                links.append([list(r) for r in cu.fetchall()])
             return tabs, links
+        cur = populate(conn, c['rows'], c['links'])
+        dcur = populate(dflt, c['decoy'], c['links']) if other else None
+        dbefore = dump_of(dcur) if other else None
+
+        def dump():
+            return dump_of(cur)
         btabs, blinks = dump()
         assert btabs == [[[r[0], list(r[1])] for r in rs] for rs in c['rows']], 'population not as described'
         assert blinks == [[list(l) for l in ls] for ls in c['links']]
@@ -424,10 +484,10 @@ def run_one(c, mods):
         if c['hold'] == 'all':
             for i, rows in enumerate(c['rows']):
                 for rid, _ in rows:
-                    held[(i, rid)] = classes[i].get(rid)
+                    held[(i, rid)] = classes[i].get(rid, **kw)
         vi, vid = c['victim']
         if c['hold'] == 'victim' and any(r[0] == vid for r in c['rows'][vi]):
-            held[(vi, vid)] = classes[vi].get(vid)
+            held[(vi, vid)] = classes[vi].get(vid, **kw)
         old = sys.getrecursionlimit()
         sys.setrecursionlimit(300)
         try:
@@ -435,7 +495,7 @@ def run_one(c, mods):
                 if (vi, vid) in held:
                     held[(vi, vid)].destroySelf()
                 else:
-                    classes[vi].delete(vid)
+                    classes[vi].delete(vid, **kw)
                 out = 'ok'
             except RecursionError:
                 out = 'RecursionError'
@@ -450,7 +510,7 @@ def run_one(c, mods):
             g = []
             for rid, _ in rows:
                 try:
-                    o = classes[i].get(rid)
+                    o = classes[i].get(rid, **kw)
                     g.append('held' if held.get((i, rid)) is o else 'fresh')
                 except SQLObjectNotFound:
                     g.append('NotFound')
@@ -458,12 +518,17 @@ def run_one(c, mods):
                     g.append(type(e).__name__)
             gets.append(g)
         held.clear()
-        return {'out': out, 'tabs': atabs, 'links': alinks, 'gets': gets}
+        res = {'out': out, 'tabs': atabs, 'links': alinks, 'gets': gets}
+        if other:
+            # the default database must not have been read for decisions nor written
+            res['default_changed'] = dump_of(dcur) != dbefore
+        return res
     finally:
-        try:
-            conn.close()
-        except Exception:
-            pass
+        for dbc in ({id(conn): conn, id(dflt): dflt}).values():
+            try:
+                dbc.close()
+            except Exception:
+                pass
         # let the generated classes die: the registry would keep every class of every case alive
         # (and gc.collect() above would get slower with every case)
         from sqlobject import classregistry
@@ -471,7 +536,8 @@ def run_one(c, mods):
         # ... and DBConnection.__init__ leaves a bound method of every connection in the default
         # registry's callback list
         cbs = classregistry.registry(conn.registry).genericCallbacks
-        cbs[:] = [cb for cb in cbs if getattr(cb[0], '__self__', None) is not conn]
+        cbs[:] = [cb for cb in cbs if getattr(cb[0], '__self__', None) is not conn
+                  and getattr(cb[0], '__self__', None) is not dflt]
 
 
 def run_impl(cases):
@@ -588,7 +654,8 @@ def within_spec_effects(c, sp, o):
 def oracle(c, o):
     if not victim_exists(c):
         # malformed stream: Class.delete(id) of an id that is not there
-        if o['out'] != 'SQLObjectNotFound' or o['tabs'] != c['rows'] or o['links'] != c['links']:
+        if (o['out'] != 'SQLObjectNotFound' or o['tabs'] != c['rows'] or o['links'] != c['links']
+                or o.get('default_changed')):
             return {'what': 'deleting a missing id: outcome %s / state changed' % o['out'], 'deviations': ['missing_id']}
         return None
     sp = spec_of(c)
@@ -635,6 +702,8 @@ def oracle(c, o):
                 ghost.append([k, r[0]])
             if got not in ('NotFound', 'held', 'fresh'):
                 ghost.append([k, r[0], got])
+    if o.get('default_changed'):
+        dev.append('default_db_touched')
     if stale:
         dev.append('stale_get')
         detail['stale'] = stale
@@ -643,8 +712,8 @@ def oracle(c, o):
         detail['ghost'] = ghost
     if not dev:
         return None
-    return {'what': 'destroying K%d#%d (cache=%s, hold=%s): %s; outcome %s, specification %s' % (
-        c['victim'][0], c['victim'][1], c['cache'], c['hold'], ', '.join(dev), o['out'],
+    return {'what': 'destroying K%d#%d (cache=%s, hold=%s, connection=%s): %s; outcome %s, specification %s' % (
+        c['victim'][0], c['victim'][1], c['cache'], c['hold'], c.get('conn', 'default'), ', '.join(dev), o['out'],
         'refuses (restricting references %s)' % sp['restricting'] if sp['refused'] else 'deletes %s' % sp['D']),
         'deviations': dev, 'detail': detail,
         'expected': {'refused': sp['refused'], 'tabs': sp['tabs'], 'links': sp['links'], 'D': sp['D']},
@@ -729,7 +798,7 @@ def explain_deviations(c, o, f):
     ids = []
     # fixed findings (restrict_test_per_dependent_class 6f7f267, uncached_connection_hands_out_destroyed_instance
     # e3b93b4) are no longer known: their deviations are violations again
-    if ('stale_get' in dev or 'refused_without_restriction' in dev or 'changed_although_raised' in dev or
+    if ('default_db_touched' in dev or 'stale_get' in dev or 'refused_without_restriction' in dev or 'changed_although_raised' in dev or
             'ghost_get' in dev or 'other_exception' in dev or 'missing_id' in dev):
         return None
     if 'recursion' in dev:
@@ -786,7 +855,8 @@ def nontrivial(c, o):
 
 
 def key(c):
-    return [c['classes'], c['rows'], c['links'], c['victim'], c['cache'], c['hold']]
+    return [c['classes'], c['rows'], c['links'], c['victim'], c['cache'], c['hold'], c.get('conn', 'default'),
+            c.get('decoy')]
 
 
 def depth_of(c, sp):
@@ -808,7 +878,8 @@ def depth_of(c, sp):
 
 
 def distribution(cases, obs):
-    d = {'outcome': {}, 'classes': {}, 'closure_size': {}, 'cascade_depth': {}, 'cache': {}, 'hold': {},
+    d = {'outcome': {}, 'classes': {}, 'closure_size': {}, 'cascade_depth': {}, 'cache': {}, 'hold': {}, 'connection': {},
+         'explicit_connection_and_default_db_disagrees_on_restriction': 0,
          'spec_refused': 0, 'null_outs': 0, 'link_rows_removed': 0, 'dangling_left': 0, 'self_reference_schema': 0,
          'two_columns_same_target': 0, 'related_joins': 0, 'deviations': {}, 'missing_victim': 0}
     for c, o in zip(cases, obs):
@@ -818,6 +889,8 @@ def distribution(cases, obs):
         d['classes'][str(len(c['classes']))] = d['classes'].get(str(len(c['classes'])), 0) + 1
         d['cache'][str(c['cache'])] = d['cache'].get(str(c['cache']), 0) + 1
         d['hold'][c['hold']] = d['hold'].get(c['hold'], 0) + 1
+        cm = c.get('conn', 'default')
+        d['connection'][cm] = d['connection'].get(cm, 0) + 1
         if not victim_exists(c):
             d['missing_victim'] += 1
             continue
@@ -827,6 +900,11 @@ def distribution(cases, obs):
         dp = str(depth_of(c, sp))
         d['cascade_depth'][dp] = d['cascade_depth'].get(dp, 0) + 1
         d['spec_refused'] += 1 if sp['refused'] else 0
+        if cm == 'other':
+            dc = dict(c)
+            dc['rows'] = c['decoy']
+            if spec_of(dc)['refused'] != sp['refused']:
+                d['explicit_connection_and_default_db_disagrees_on_restriction'] += 1
         if o['out'] == 'ok':
             for k, cd in enumerate(c['classes']):
                 after = {r[0]: r[1] for r in o['tabs'][k]}
